@@ -41,6 +41,7 @@ import JanetModel.Compile.SeqTail
 import JanetModel.Compile.SeqCallL
 import JanetModel.Compile.SeqCoreIf
 import JanetModel.Compile.SeqErr
+import JanetModel.Compile.SeqTailAll
 namespace JanetModel.Props.C02
 open JanetModel.Emit
 
@@ -682,6 +683,39 @@ theorem compile_correct_tail_calls (p : Program) (f0 : Frame) (rest : List Frame
     refine ⟨hret, mx, more, seg, segm, b1, b2, b3, b4, b5, fun k a1 a2 a3 a4 a5 a6 a7 => ?_⟩
     obtain ⟨regs', A, pc', r1, _, r3, r4⟩ := vm k a1 a2 a3 a4 a5 a6 a7
     exact ⟨regs', A, pc', s_a.st.world, r1, r3, r4⟩
+
+/-- **Compile correctness, tail position, every form of the fragment `TF G false`**
+    (`e ::= literal | symbol | (f e ...) | (do e ...) | (upscope e ...) | (def x e)`) compiled with the TAIL flag in a scope that is not the top
+    level — what `janetc_fn` does with the last form of a function body.  `janetc_value` ends with `janetc_return`: nothing when the
+    slot is already flagged RETURNED (a tail call; a `do` whose last statement returned), `RETURN_NIL` for the constant nil,
+    `LDK t k; RETURN t` for another constant, `RETURN r` for a local; `do` / `upscope` pass the tail flag to their LAST statement
+    only (the others are compiled dropped and freed, by the non-tail theorem), `def` compiles its value non-tail and returns its
+    slot, a call becomes `TAILCALL`.  Conclusion `TailOK`: the result slot is flagged RETURNED; the compiler state changed as for
+    any form (innermost allocator and symbols, pool / code / map appended, allocator monotone); and the VM, started at the form's
+    code from any configuration of the activation satisfying the run-time invariant, reaches a configuration whose NEXT STEP IS
+    `doReturn` OF THE VALUE `Lang/Sem` GIVES, IN THE WORLD `Lang/Sem` GIVES.  Hypotheses beyond the non-tail theorem: `NR c.scopes`
+    (no resolvable name's slot carries the RETURNED flag — true at function entry; preserved by every non-tail compile, proved
+    compile-only as `tf_NR`; without it the statement is false: `janetc_return` emits nothing for a flagged slot) and the
+    map-length invariant.  By an induction of its own (`Compile/SeqTailAll.lean`: `tf_tail_correct`).  `if` in tail position
+    (`TF G true`) is the parameter `TailIfCase` of `tf_tail_correct_gen`, not proved yet. -/
+theorem compile_correct_tail (p : Program) (f0 : Frame) (rest : List Frame) (V : Array Value) (P : List JanetModel.Emit.KConst)
+    (hP : P.length < 65536)
+    (hK : ∀ i, i < P.length → (p.defs.getD f0.defIdx default).consts.getD i .nil = litOf V (P.getD i .nil))
+    (FF : FloatFacts) (G : String → Prop)
+    (fuel : Nat) (e : Expr) (opts : Fopts) (c c' : CState) (slot : JSlot) (sc : Scope) (rs : List Scope) (pool : List JanetModel.Emit.KConst)
+    (ps : List (List JanetModel.Emit.KConst)) (n : Nat) (cur : Pos) (env env' : Env) (s s' : SS) (v : Value)
+    (ht : opts.tail = true) (hh : opts.hint = none)
+    (hs : c.scopes = sc :: rs) (hp : c.pools = pool :: ps) (hl : c.lim ≤ 240) (htop : sc.top = false)
+    (hm : c.map.length = c.buf.length) (hfrag : TF G false e)
+    (hcomp : cValue fuel opts e c = some (slot, c')) (hsem : eval n cur env e s = .ok (v, env') s')
+    (henv : EnvS G c.scopes env s.boxes.size sc.ra) (hnr : NR c.scopes) :
+    TailOK p f0 rest V P G c c' slot sc rs pool ps env s s' v :=
+  tf_tail_correct p f0 rest V P hP hK FF G fuel e opts c c' slot sc rs pool ps n cur env env' s s' v ht hh hs hp hl htop hm hfrag hcomp hsem
+    henv hnr
+
+/-- non-vacuity: at the entry of a function body without parameters no name is resolvable, so `NR` holds -/
+example (scs : List Scope) (h : ∀ x, lk scs x = none) : NR scs := by
+  intro x slot u l hx; rw [h x] at hx; exact absurd hx (by simp)
 
 /-- non-vacuity: the option set of a function body's last form satisfies the hypotheses of `compile_correct_tail_calls` -/
 example : ({ tail := true } : Fopts).tail = true ∧ ({ tail := true } : Fopts).hint = none := ⟨rfl, rfl⟩
